@@ -478,3 +478,26 @@ B("C01", SU, "            return repeated_starts + np.arange(n_inds[0]).astype(i
 # node-selected views keep an edge iff both ends are in view, however the masks are combined
 P("C11", BASE, "            possible_edges_in_view = base_edges.index.to_numpy()[(pre & post).flatten()]", "            possible_edges_in_view = base_edges.index.to_numpy()[np.logical_and(pre, post)]")
 B("C11", BASE, "            possible_edges_in_view = base_edges.index.to_numpy()[(pre & post).flatten()]", "            possible_edges_in_view = base_edges.index.to_numpy()[np.logical_or(pre, post)]", "R-C11-edges")
+
+# F24 (repaired): recordings are matched by row label, so record() must hand out fresh labels; and a recording is a PAIR
+B("C19", BASE, "            [self.base.recordings, new_recs], ignore_index=True\n        )", "            [self.base.recordings, new_recs]\n        )", "R-C19-recs")
+P("C19", BASE, "            [self.base.recordings, new_recs], ignore_index=True\n        )", "            [self.base.recordings, new_recs]\n        ).reset_index(drop=True)")
+B("C19", BASE, "                ~base_recs.isin(self.recordings).all(axis=1)", "                ~base_recs[\"rec_index\"].isin(self.recordings[\"rec_index\"])", "R-C19-recs")
+# recorded synapse locations
+B("C20", CU, "    index = global_comp_index - cumsum_ncomp[global_branch_index]", "    index = global_comp_index % ncomp_per_branch[global_branch_index]", "R-C20-locs")
+P("C20", CU, "    return (0.5 + index) / ncomp", "    return (index + 0.5) / ncomp")
+for _p, _r in (("C11", "R-C11-edges"), ("C20", "R-C20-views")):
+    B(_p, BASE, "            self._edges_in_view = np.intersect1d(\n                possible_edges_in_view, self._edges_in_view\n            )", "            self._edges_in_view = possible_edges_in_view", _r)
+# what a view lists
+B("C11", BASE, "        channel_in_view = self.nodes[names].any(axis=0)", "        channel_in_view = self.nodes[names].all(axis=0)", "R-C11-inview")
+P("C11", BASE, "        channel_in_view = self.nodes[names].any(axis=0)", "        channel_in_view = self.nodes[names].max(axis=0)")
+B("C11", BASE, '            view.edges["local_edge_index"] = np.arange(len(view.edges))', '            view.edges["local_edge_index"] = self._edge_inds_within_type()[view._edges_in_view]', "R-C11-inview")
+# parameter source / name parsing / lost update / tracer operands / scheme dispatch / input guards
+for _p, _r in (("C10", "R-C10-paramsource"), ("C05", "R-C05-paramsource")):
+    B(_p, BASE, '                voltages, i_inds, i_current, params["radius"], params["length"]', '                voltages, i_inds, i_current, self.jaxnodes["radius"], self.jaxnodes["length"]', _r)
+B("C16", CU, "        radiuses_each[radiuses_each < min_radius] = min_radius", "        radiuses = np.clip(radiuses, a_min=min_radius, a_max=None)", "R-C16-lostupdate")
+B("C18", BASE, "        with ensure_compile_time_eval():\n            self.base.jaxnodes = {}", "        inds = jnp.arange(len(self.base.nodes))\n        with ensure_compile_time_eval():\n            self.base.jaxnodes = {}", None)
+B("C01", BASE, '        if solver == "bwd_euler":', '        if solver != "bwd_euler":', "R-C01-scheme")
+B("C08", BASE, '        if "v" in externals.keys():\n            u["v"] = u["v"].at', '        if "v" not in externals.keys():\n            u["v"] = u["v"].at', "R-C08-inputs")
+B("C08", BASE, '            if key not in ["i", "v"]:', '            if key in ["i", "v"]:', "R-C08-inputs")
+P("C08", BASE, '            if key not in ["i", "v"]:', '            if key != "i" and key != "v":')
